@@ -23,7 +23,7 @@ macro_rules! stamp_family {
             }
 
             #[interthread::family(lib = $libs, $lock,
-                actor(first_name = "R", include(peek, slow_read)),
+                actor(first_name = "R", include(peek, slow_read, note, mark)),
                 actor(first_name = "W", include(bump, slow_read)),
             )]
             impl Cell {
@@ -40,6 +40,18 @@ macro_rules! stamp_family {
 
                 pub fn peek(&self) -> i64 {
                     let _g = self.rec.enter_reader();
+                    self.n
+                }
+
+                // a non-mutating fire-and-forget call with a visible effect, and a non-mutating value-returning call
+                pub fn note(&self, who: u32, seq: u32) {
+                    let _g = self.rec.enter_reader();
+                    self.rec.push(format!("note:{who}:{seq}"));
+                }
+
+                pub fn mark(&self, who: u32) -> i64 {
+                    let _g = self.rec.enter_reader();
+                    self.rec.push(format!("mark:{who}"));
                     self.n
                 }
 
@@ -113,6 +125,30 @@ macro_rules! stamp_family {
                 panicked.extend(p2);
                 hung += h2;
 
+                phase("family: note/mark order");
+                // one client: NOTES fire-and-forget non-mutating calls, then a value-returning call through the same handle
+                const NOTES: u32 = 8;
+                let nm = Slot::new();
+                {
+                    let rc = r.clone();
+                    spawn_client!($lib, nm.clone(), {
+                        let rc = rc;
+                        for seq in 0..NOTES {
+                            rc.note(7, seq) $($aw)*;
+                        }
+                        let _v = rc.mark(7) $($aw)*;
+                    });
+                }
+                settle(&|| nm.finished(), Duration::from_secs(3));
+                wait_until(|| rec.count_prefix("note:") >= NOTES as usize, Duration::from_secs(2));
+                let (_, p3, h3) = summarize(&[nm.clone()]);
+                panicked.extend(p3);
+                hung += h3;
+                let note_log: Vec<String> = rec.snapshot().into_iter().filter(|e| e.starts_with("note:") || e.starts_with("mark:")).collect();
+                let mut note_want: Vec<String> = (0..NOTES).map(|i| format!("note:7:{i}")).collect();
+                note_want.push("mark:7".to_string());
+                let note_order_ok = note_log == note_want;
+
                 phase("family: final peek");
                 let fin = timed_call!($lib, [$($aw)*], r, r.peek(), Duration::from_secs(3));
 
@@ -144,6 +180,8 @@ macro_rules! stamp_family {
                     .b("per_member_order_ok", order_ok)
                     .b("all_bumps_applied", all_applied)
                     .b("peeks_monotonic", monotonic.load(SeqCst))
+                    .b("note_order_ok", note_order_ok)
+                    .strs("note_log", &note_log)
                     .s("rendezvous", rendezvous);
                 match fin {
                     Timed::Ok(v) => o = o.n("final", v),
